@@ -161,3 +161,178 @@ pub fn cmd_replay(args: &[String]) -> i32 {
     println!("{}", json!({"cases": cases.len(), "judged": judged, "mismatches": bad}));
     0
 }
+
+// ------------------------------------------------------------------ seeded programs of the C01 grammar
+struct G1 {
+    rng: Rng,
+    out: Vec<String>,
+    defs: Vec<String>,
+    vars: Vec<String>,
+    d: i32, // a rough lower bound of the stack depth, so that most programs do not die on their first word
+}
+
+impl G1 {
+    fn lit(&mut self) { let v = ["0", "1", "2", "3", "-1", "2", "1", "true", "false", "nil"]; let s = v[self.rng.below(v.len())]; self.out.push(s.into()); self.d += 1; }
+    fn word(&mut self) {
+        // (name, needs, net effect); numeric words after numeric literals most of the time
+        let v: [(&str, i32, i32); 15] = [("dup", 1, 1), ("drop", 1, -1), ("swap", 2, 0), ("over", 2, 1), ("rot", 3, 0), ("+", 2, -1), ("-", 2, -1), ("*", 2, -1),
+                 ("==", 2, -1), ("<", 2, -1), (">=", 2, -1), ("depth", 0, 1), ("not", 1, 0), ("print", 1, -1), ("nil?", 1, 0)];
+        let (w, need, net) = v[self.rng.below(v.len())];
+        if self.d < need && self.rng.chance(9, 10) { self.lit(); return; }
+        if matches!(w, "+" | "-" | "*" | "==" | "<" | ">=") && self.rng.chance(3, 4) {
+            // make the operands numeric
+            self.out.push((self.rng.below(4)).to_string()); self.out.push((self.rng.below(4)).to_string()); self.d += 2;
+        }
+        self.out.push(w.into());
+        self.d = (self.d + net).max(0);
+    }
+    fn flag(&mut self) {
+        match self.rng.below(3) {
+            0 => self.out.push("true".into()),
+            1 => self.out.push("false".into()),
+            _ => { self.out.push("depth".into()); self.out.push("2".into()); self.out.push("<".into()); }
+        }
+    }
+    fn seq(&mut self, budget: usize, depth: usize, in_def: bool, locals: &mut Vec<String>, loop_kind: u8) {
+        let start = self.out.len();
+        while self.out.len() - start < budget {
+            let left = budget - (self.out.len() - start);
+            let r = self.rng.below(100);
+            if r < 25 { self.lit(); }
+            else if r < 45 { self.word(); }
+            else if r < 53 && depth < 5 && left > 3 {
+                self.flag(); self.out.push("if".into()); self.d = 0;
+                self.seq(left / 3, depth + 1, in_def, locals, loop_kind);
+                if loop_kind != 0 && self.rng.chance(1, 4) { self.out.push("break".into()); }
+                if self.rng.chance(1, 2) { self.out.push("else".into()); self.seq(left / 3, depth + 1, in_def, locals, loop_kind); }
+                self.out.push("then".into());
+            } else if r < 59 && depth < 4 && left > 4 {
+                let n = self.rng.below(4); let s = self.rng.below(3);
+                self.out.push(n.to_string()); self.out.push(s.to_string()); self.out.push("do".into());
+                if self.rng.chance(1, 2) { self.out.push(["I", "J", "K"][self.rng.below(3)].into()); }
+                self.seq(left / 3, depth + 1, in_def, locals, 1);
+                self.out.push("loop".into()); self.d = 0;
+            } else if r < 63 && depth < 4 && left > 6 {
+                self.out.push("0".into()); self.out.push("begin".into()); self.out.push("1".into()); self.out.push("+".into());
+                self.out.push("dup".into()); self.out.push((1 + self.rng.below(3)).to_string()); self.out.push(">=".into()); self.out.push("until".into());
+            } else if r < 67 && depth < 4 && left > 8 {
+                self.out.push("0".into()); self.out.push("begin".into()); self.out.push("dup".into()); self.out.push((1 + self.rng.below(3)).to_string());
+                self.out.push("<".into()); self.out.push("while".into()); self.out.push("1".into()); self.out.push("+".into());
+                if self.rng.chance(1, 3) { self.out.push("dup".into()); self.out.push("2".into()); self.out.push("==".into()); self.out.push("if".into()); self.out.push("break".into()); self.out.push("then".into()); }
+                self.out.push("repeat".into());
+            } else if r < 71 && depth < 4 && left > 8 {
+                self.lit(); self.out.push("case".into());
+                for _ in 0..(1 + self.rng.below(2)) { self.lit(); self.out.push("of".into()); self.seq(2, depth + 1, in_def, locals, loop_kind); self.out.push("endof".into()); }
+                self.out.push("endcase".into());
+            } else if r < 80 && depth < 3 && left > 5 {
+                // definition (nested definitions allowed); the name becomes callable once the definition is closed
+                let name = ["f", "g", "h"][self.rng.below(3)].to_string();
+                self.out.push(":".into()); self.out.push(name.clone());
+                let mut inner: Vec<String> = vec![];
+                self.seq(left / 2, depth + 1, true, &mut inner, 0);
+                self.out.push(";".into()); self.d = 0;
+                self.defs.push(name);
+            } else if r < 86 && !self.defs.is_empty() {
+                let n = self.defs[self.rng.below(self.defs.len())].clone(); self.out.push(n); self.d = 0;
+            } else if r < 92 && in_def {
+                // locals: few names, so that the same name is declared repeatedly
+                let name = ["x", "y"][self.rng.below(2)].to_string();
+                if self.d < 1 || self.rng.chance(2, 3) { self.lit(); }
+                self.out.push("local".into()); self.out.push(name.clone()); locals.push(name); self.d = (self.d - 1).max(0);
+            } else if r < 96 && in_def && !locals.is_empty() {
+                let n = locals[self.rng.below(locals.len())].clone(); self.out.push(n); self.d += 1;
+            } else if r < 98 && !in_def && depth == 0 {
+                let name = ["u", "v"][self.rng.below(2)].to_string();
+                self.lit(); self.out.push("var".into()); self.out.push(name.clone()); self.vars.push(name);
+            } else if !self.vars.is_empty() {
+                let n = self.vars[self.rng.below(self.vars.len())].clone();
+                if self.rng.chance(1, 2) { self.lit(); self.out.push("!".into()); }
+                self.out.push(n);
+            } else { self.lit(); }
+        }
+    }
+}
+
+impl G1 {
+    /// definitions whose interest is the local-variable table: repeated names, nested definitions with their own
+    /// locals under an outer definition that already has some, reads after redeclaration
+    fn local_stress(&mut self) {
+        let names = ["x", "y"];
+        self.out.push(":".into()); self.out.push("f".into());
+        let mut mine: Vec<String> = vec![];
+        for _ in 0..(1 + self.rng.below(3)) {
+            self.out.push((1 + self.rng.below(8)).to_string()); self.out.push("local".into());
+            let n = names[self.rng.below(2)].to_string(); self.out.push(n.clone()); mine.push(n);
+        }
+        let mut has_g = false;
+        if self.rng.chance(1, 2) {
+            has_g = true;
+            self.out.push(":".into()); self.out.push("g".into());
+            let mut inner: Vec<String> = vec![];
+            for _ in 0..(1 + self.rng.below(2)) {
+                self.out.push((10 + self.rng.below(8)).to_string()); self.out.push("local".into());
+                let n = names[self.rng.below(2)].to_string(); self.out.push(n.clone()); inner.push(n);
+            }
+            for _ in 0..(1 + self.rng.below(3)) { let n = inner[self.rng.below(inner.len())].clone(); self.out.push(n); }
+            self.out.push(";".into());
+        }
+        for _ in 0..(1 + self.rng.below(3)) { let n = mine[self.rng.below(mine.len())].clone(); self.out.push(n); }
+        if self.rng.chance(1, 2) {
+            self.out.push((20 + self.rng.below(8)).to_string()); self.out.push("local".into());
+            let n = names[self.rng.below(2)].to_string(); self.out.push(n.clone()); mine.push(n.clone());
+            self.out.push(n);
+            let m = mine[self.rng.below(mine.len())].clone(); self.out.push(m);
+        }
+        if has_g && self.rng.chance(2, 3) { self.out.push("g".into()); }
+        self.out.push(";".into());
+        self.out.push("f".into());
+        if has_g && self.rng.chance(1, 2) { self.out.push("g".into()); }
+    }
+}
+
+fn tok_json(t: &str) -> Value {
+    let lit = |c: Value| json!({"t": "lit", "v": c, "s": "", "id": 0});
+    if let Ok(i) = t.parse::<i64>() { return lit(json!({"ty": "int", "i": i})); }
+    json!({"t": "w", "v": {"ty": "nil"}, "s": t, "id": 0})
+}
+
+/// xv prog-record <trace> <seed> <n> <budget>
+pub fn cmd_record(args: &[String]) -> i32 {
+    let seed: u64 = args[1].parse().unwrap_or(1);
+    let n: usize = args[2].parse().unwrap_or(500);
+    let budget: usize = args[3].parse().unwrap_or(30);
+    let mut trace = String::new();
+    let mut g = G1 { rng: Rng::new(seed), out: vec![], defs: vec![], vars: vec![], d: 0 };
+    let mut done = 0usize;
+    for i in 0..n {
+        g.out.clear(); g.defs.clear(); g.vars.clear(); g.d = 0;
+        let b = 6 + g.rng.below(budget);
+        let mut locals = vec![];
+        if i % 4 == 3 { g.local_stress(); } else { g.seq(b, 0, false, &mut locals, 0); }
+        let toks = g.out.clone();
+        let src = toks.join(" ");
+        let r = run_source(&src, Drive::Eval, false, 100_000);
+        if r.panic.is_some() { continue; }
+        let ds = stack_json(&r.xs);
+        let outv: Vec<String> = split_out(&r.out);
+        let mut vars = serde_json::Map::new();
+        for v in g.vars.iter() {
+            if let Ok(c) = r.xs.get_var_value(v) { vars.insert(v.clone(), cell_json(c)); }
+        }
+        let (res, cls) = match &r.res { Ok(()) => ("ok", "none"), Err(e) => if err_class(e) == "Limit" { ("limit", "Limit") } else { ("err", err_class(e)) } };
+        trace.push_str(&json!({"run": i, "src": src, "toks": toks.iter().map(|t| tok_json(t)).collect::<Vec<_>>(), "res": res, "cls": cls,
+                               "ds": ds, "out": outv, "vars": vars}).to_string());
+        trace.push('\n');
+        done += 1;
+    }
+    std::fs::write(&args[0], trace).unwrap();
+    println!("{}", json!({"programs": done}));
+    0
+}
+
+/// stdout as the sequence of pieces `print` produces for the cells of this grammar (ints, flags, nil, vectors never printed here)
+fn split_out(s: &str) -> Vec<String> {
+    // the grammar prints only ints, flags and nil, none of which contains a prefix of another except digits:
+    // record the whole text as ONE piece when non-empty; Trace_Source compares the concatenation (see Flat)
+    if s.is_empty() { vec![] } else { vec![s.to_string()] }
+}
